@@ -75,10 +75,12 @@ SITES = [
         '{doubleretval=1.0;for(size_ti=0;i<graph.getS().size();++i){retval*=transitions[i](graph.getId(i,s,a),s1[i]);}returnretval;}': None}),
     ('factoredMatrixGetValue', 'src/Factored/Utils/FactoredMatrix.cpp', r'FactoredMatrix2D::getValue\s*\(\s*const\s+Factors\s*&\s*space\s*,\s*const\s+Factors\s*&\s*actions\s*,\s*const\s+Factors\s*&\s*value\s*,\s*const\s+Factors\s*&\s*action\s*\)\s*const\s*\{', {
         '{doubleretval=0.0;for(constauto&e:bases){constautofid=toIndexPartial(e.tag,space,value);constautoaid=toIndexPartial(e.actionTag,actions,action);retval+=e.values(fid,aid);}returnretval;}': None}),
-    ('dirichletSampler', 'include/AIToolbox/Utils/Probability.hpp', r'void\s+sampleDirichletDistribution\s*\(\s*const\s+TIn\s*&\s*params\s*,\s*G\s*&\s*generator\s*,\s*TOut\s*&&\s*out\s*\)\s*\{', {
-        '{assert(params.size()==out.size());doublesum=0.0;for(size_ti=0;i<static_cast<size_t>(params.size());++i){std::gamma_distribution<double>dist(params[i],1.0);out[i]=dist(generator);sum+=out[i];}out/=sum;}': None}),
-    ('betaSampler', 'include/AIToolbox/Utils/Probability.hpp', r'double\s+sampleBetaDistribution\s*\(\s*double\s+a\s*,\s*double\s+b\s*,\s*G\s*&\s*generator\s*\)\s*\{', {
-        '{std::gamma_distribution<double>dista(a,1.0);std::gamma_distribution<double>distb(b,1.0);constautoX=dista(generator);constautoY=distb(generator);returnX/(X+Y);}': None}),
+    ('dirichletLogSpace', 'include/AIToolbox/Utils/Probability.hpp', r'void\s+sampleDirichletDistribution\s*\(\s*const\s+TIn\s*&\s*params\s*,\s*G\s*&\s*generator\s*,\s*TOut\s*&&\s*out\s*\)\s*\{', {
+        '{assert(params.size()==out.size());doublesum=0.0;for(size_ti=0;i<static_cast<size_t>(params.size());++i){std::gamma_distribution<double>dist(params[i],1.0);out[i]=dist(generator);sum+=out[i];}out/=sum;}': False,
+        '{assert(params.size()==out.size());doublemax=-std::numeric_limits<double>::infinity();for(size_ti=0;i<static_cast<size_t>(params.size());++i){out[i]=sampleLogGammaDistribution(params[i],generator);max=std::max(max,out[i]);}doublesum=0.0;for(size_ti=0;i<static_cast<size_t>(params.size());++i){out[i]=std::exp(out[i]-max);sum+=out[i];}out/=sum;}': True}),
+    ('betaLogSpace', 'include/AIToolbox/Utils/Probability.hpp', r'double\s+sampleBetaDistribution\s*\(\s*double\s+a\s*,\s*double\s+b\s*,\s*G\s*&\s*generator\s*\)\s*\{', {
+        '{std::gamma_distribution<double>dista(a,1.0);std::gamma_distribution<double>distb(b,1.0);constautoX=dista(generator);constautoY=distb(generator);returnX/(X+Y);}': False,
+        '{constautologX=sampleLogGammaDistribution(a,generator);constautologY=sampleLogGammaDistribution(b,generator);constautom=std::max(logX,logY);constautoX=std::exp(logX-m);constautoY=std::exp(logY-m);returnX/(X+Y);}': True}),
 ]
 
 # the member initialisers of the Vose constructor belong to the modelled form as well
@@ -108,6 +110,17 @@ def gen_c08_variant():
     m = re.search(r'static\s+std::uniform_real_distribution<double>\s+probabilityDistribution\s*\(\s*0\.0\s*,\s*1\.0\s*\)\s*;', srcs[HPP])
     if not m:
         errs.append('probabilityDistribution is no longer uniform_real_distribution<double>(0.0, 1.0)')
+    # fixes/C08-6: when Dirichlet/Beta use the log-space helper, the helper must be the form the harness replays
+    vals = {n: v for n, v, _r, _l in rows}
+    if vals.get('dirichletLogSpace') != vals.get('betaLogSpace'):
+        errs.append('sampleDirichletDistribution and sampleBetaDistribution are in different (plain / log-space) forms')
+    elif vals.get('dirichletLogSpace'):
+        try:
+            hb, _ = _body(srcs[HPP], r'double\s+sampleLogGammaDistribution\s*\(\s*const\s+double\s+shape\s*,\s*G\s*&\s*generator\s*\)\s*\{', 'sampleLogGammaDistribution')
+            if _norm(hb) != '{if(shape>=1.0){std::gamma_distribution<double>dist(shape,1.0);returnstd::log(dist(generator));}std::gamma_distribution<double>dist(shape+1.0,1.0);constdoubleg=dist(generator);constdoubleu=1.0-probabilityDistribution(generator);returnstd::log(g)+std::log(u)/shape;}':
+                errs.append('sampleLogGammaDistribution is not in the modelled form')
+        except E.ExtractError as e:
+            errs.append(str(e))
     # DDNGraph::push: the running-sum construction of startIds_ (modelled by ddnStartIds)
     bn = E.strip_comments(E.read('src/Factored/Utils/BayesianNetwork.cpp'))
     mm = re.search(r'size_t\s+newStartId\s*=\s*0;.*?newStartIds\.back\(\)\s*=\s*newStartId;', bn, re.S)
